@@ -166,4 +166,19 @@ CHECKS = {
         'trusted_base': [KERNEL, AX, TIE, 'model Pangaea/Object/Dict.lean is a hand transcription of evalObj / evalMap / NewInheritedMap / findElemInMap / keyHashes', 'FNV-64a and Float64bits hashes are treated as injective on the keys that occur'],
         'assumptions': ['the key equivalence never relates a hashable to a non-hashable key (true of the built-in ==)', 'object keys are strs', 'property fallback of m[k] is taken from the live prototype chain by the harness'],
     },
+    'C12': {
+        'lean_modules': ['Pangaea.Theorems.C12'],
+        'theorem_modules': ['Pangaea.Theorems.C12'],
+        'theorems': ['Pangaea.C12.one_rule', 'Pangaea.C12.if_then_only', 'Pangaea.C12.if_else_only', 'Pangaea.C12.shortcut_decided',
+                     'Pangaea.C12.shortcut_undecided', 'Pangaea.C12.shortcut_by_truthiness', 'Pangaea.C12.guard_spec'],
+        'harness': ['C12'],
+        'shards': 8,
+        'spec_is_function': True,
+        'exhaustive': True,
+        'rule': 'exhaustive over a pool of 131 condition values (every built-in type with zero and non-zero instances, prototype objects, objects with a user-defined B as value / method returning true, false, nil, non-bool, raising, '
+                'and bear-descendants of all of them with empty and non-empty source) x 9 constructs (if-else, if, guarded return / raise / yield / defer, !, &&, ||) with printing condition, branches and right operand; '
+                'observables: marker sequence (which operands ran, how often) and whether the result is the condition value itself. non-trivial: all; distinct by (value description, construct)',
+        'trusted_base': [KERNEL, AX, TIE, 'model Pangaea/Props/Truthy.lean is a hand transcription of isTruthy / canShortCut / evalShortCutInfix / evalIf / Obj#!; the per-type B built-ins are modelled only in the driver (Drv/C12.lean) and checked by the correspondence'],
+        'assumptions': ['sub-expressions are arbitrary state transformers in the theorems', 'WF: the two bool singletons answer B with themselves (checked by the correspondence for true / false)'],
+    },
 }
